@@ -166,7 +166,9 @@ def schema(prefix=""):
 VARDEFS = [("vi", N("Int"), None), ("vd", N("Int"), 3), ("vn", NN(N("Int")), None), ("vt", NN(N("Boolean")), True),
            ("vf", NN(N("Boolean")), False), ("vb", NN(N("Boolean")), None),
            # list variables; vl's default is the same literal as vd's and coerces to [3]
-           ("vl", L(N("Int")), 3), ("vm", L(NN(N("Int"))), [4, 3])]
+           ("vl", L(N("Int")), 3), ("vm", L(NN(N("Int"))), [4, 3]),
+           # variables of input object type (values: maps with explicit nulls, missing fields, nested maps, unknown keys)
+           ("vo", N("In"), None), ("vq", N("In"), {"r": 1, "a": 2}), ("vr", NN(N("In")), None)]
 
 
 def gen_outcome(rnd, t, depth, p_null=0.12, p_err=0.1, p_bad=0.04):
@@ -248,6 +250,12 @@ class DocGen:
             if r < 0.35 and not (nonnull and not a["hasDefault"]):
                 continue   # not provided
             r2 = rnd.random()
+            if named_of(a["type"]) == "In" and a["type"][0] != "L" and r2 > 0.65:
+                # a variable of input object type as the whole argument (od: In! has a default, so a nullable variable fits)
+                var = rnd.choice(["vo", "vq", "vr"])
+                self.used_vars.add(var)
+                out.append([a["name"], {"t": "var", "n": var}])
+                continue
             if named_of(a["type"]) == "In":
                 v = self.obj_lit(2)
                 if a["type"][0] == "L":
@@ -441,7 +449,41 @@ def var_value(rnd, t):
             return var_value(rnd, N(named_of(t)))
         item_nn = t[1][0] == "NN"
         return {"t": "l", "v": [{"t": "null"} if (not item_nn and rnd.random() < 0.2) else var_value(rnd, t[1]) for _ in range(rnd.randint(0, 3))]}
+    if t[1] == "In":
+        return in_value(rnd, 0)
     return {"t": "b", "v": rnd.random() < 0.5} if t[1] == "Boolean" else {"t": "i", "v": rnd.randint(0, 9)}
+
+
+def in_value(rnd, depth):
+    """a map for the input object type In { a: Int  b: Int! = 5  c: In  l: [Int!]  r: Int! }: mostly acceptable; explicit nulls,
+    missing fields, a single value for the list; rarely a null for b / r, a missing r or an unknown key (request errors)"""
+    kv = []
+    r = rnd.random()
+    if r < 0.6:
+        kv.append(["a", {"t": "null"} if rnd.random() < 0.3 else {"t": "i", "v": rnd.randint(0, 9)}])
+    r = rnd.random()
+    if r < 0.4:
+        kv.append(["b", {"t": "i", "v": rnd.randint(0, 9)}])
+    elif r < 0.46:
+        kv.append(["b", {"t": "null"}])                      # null for Int! = 5: an error, not the default
+    if depth < 2 and rnd.random() < 0.4:
+        kv.append(["c", {"t": "null"} if rnd.random() < 0.3 else in_value(rnd, depth + 1)])
+    r = rnd.random()
+    if r < 0.3:
+        kv.append(["l", {"t": "l", "v": [{"t": "i", "v": rnd.randint(0, 9)} for _ in range(rnd.randint(0, 2))]}])
+    elif r < 0.4:
+        kv.append(["l", {"t": "i", "v": 3}])                  # a single value is wrapped
+    elif r < 0.5:
+        kv.append(["l", {"t": "null"}])
+    r = rnd.random()
+    if r < 0.93:
+        kv.append(["r", {"t": "i", "v": rnd.randint(0, 9)}])
+    elif r < 0.96:
+        kv.append(["r", {"t": "null"}])
+    if rnd.random() < 0.03:
+        kv.append(["zzz", {"t": "i", "v": 1}])
+    rnd.shuffle(kv)
+    return {"t": "o", "kv": kv}
 
 
 def gen_case(seed, depth=3, op="query"):
@@ -583,6 +625,8 @@ def plain(v):
         return None
     if v["t"] == "l":
         return [plain(x) for x in v["v"]]
+    if v["t"] == "o":
+        return {k: plain(x) for k, x in v["kv"]}
     return v["v"]
 
 
